@@ -331,6 +331,33 @@ theorem bulk_eq_stores (c : Cfg) : ∀ k, 0 < k → k < 2 ^ 64 →
         unfold numBlocksPerFilter
         omega
 
+/-! ### Whole histories -/
+
+/-- Every step of the history is legal (as a proposition). -/
+def LegalRun (c : Cfg) : St → List Op → Prop
+  | _, [] => True
+  | s, op :: ops => Legal c s op ∧ LegalRun c (step c s op).1 ops
+
+/-- The highest floor any event of the history allowed. -/
+def maxAllowed (c : Cfg) : St → List Op → Nat
+  | _, [] => 0
+  | s, op :: ops => max (allowed c s op) (maxAllowed c (step c s op).1 ops)
+
+theorem reach_of_legalRun {c : Cfg} : ∀ (ops : List Op) (s : St), Reach c s → LegalRun c s ops → Reach c (run c s ops)
+  | [], _, R, _ => R
+  | op :: ops, _, R, L => reach_of_legalRun ops _ (Reach.step op R L.1) L.2
+
+theorem floor_run_le {c : Cfg} : ∀ (ops : List Op) (s : St), Reach c s → LegalRun c s ops →
+    effFloor (run c s ops) ≤ max (effFloor s) (maxAllowed c s ops) ∧ lo s.db ≤ lo (run c s ops).db
+  | [], _, _, _ => ⟨by simp [run, maxAllowed], Nat.le_refl _⟩
+  | op :: ops, s, R, L => by
+    have f := step_facts op (inv_reach R) L.1
+    have ih := floor_run_le ops _ (Reach.step op R L.1) L.2
+    have h1 := f.floorLe
+    have h2 := f.loMono
+    simp only [run, maxAllowed]
+    exact ⟨by omega, by omega⟩
+
 /-! ### A decidable version of `Legal`, to exhibit concrete reachable states -/
 
 def legalB (c : Cfg) (s : St) : Op → Bool
